@@ -56,7 +56,8 @@ class C14(Prop):
     id = 'C14'
     title = "Signed messages verify for the signer's address and for nothing else"
     lean_targets = ['BtcVerif.Props.C14']
-    table_groups = ['ChainAddr']
+    table_groups = []      # the P2PKH prefix C14 depends on is tied by T2 directly: `c14.msg` compares the address TEXT
+                           # under each chain (B8: no shared ChainAddr obligation)
     theorems = ['BtcVerif.C14.' + t for t in (
         'serVarInt_eq_compactSize', 'serBytes_eq_varBytes', 'msg_digest_eq_spec', 'msg_digest_text', 'magic_prefix',
         'msg_digest_too_long', 'headerByte_eq_spec', 'header_range', 'header_roundtrip', 'headerDecode_eq_spec',
@@ -186,7 +187,9 @@ class C14(Prop):
                                 (ver, hc, bytes([27 + recid + 4]) + r.to_bytes(32, 'big') + (N - sv).to_bytes(32, 'big')),
                                 (ver, hc, bytes([27 + (recid ^ 1) + 4]) + r.to_bytes(32, 'big')
                                  + (N - sv).to_bytes(32, 'big'))):      # the high-S twin with flipped parity verifies
-                yield mk('c14.verify', chain, atext(v, pl), cps(MAGIC), cps(t), sg.hex(), tag='verify-lean-signed')
+                tampered = sg not in (good_c, good_u)          # altered header / S: not a signature anybody produced
+                yield mk('c14.verify', chain, atext(v, pl), cps(MAGIC), cps(t), sg.hex(),
+                         tag='verify-tampered-sig' if tampered else 'verify-lean-signed', ood=tampered)
             yield mk('c14.verify', chain, atext(ver, hc), cps(MAGIC), cps(perturb(rng, t)), good_c.hex(), tag='verify-perturbed')
             yield mk('c14.verify', chain, atext(ver, hc), cps('X'), cps(t), good_c.hex(), tag='verify-magic')
             # O15 (outside the property: not a signature produced by signing): r = x(G), s = e mod n recovers the point
@@ -195,28 +198,29 @@ class C14(Prop):
             if e_:
                 for hb in (27, 31):
                     forged = bytes([hb]) + GX.to_bytes(32, 'big') + e_.to_bytes(32, 'big')
-                    yield mk('c14.recoverCompact', d, forged.hex(), tag='infinity-key')
-                    yield mk('c14.verify', chain, atext(ver, h160inf), cps(MAGIC), cps(t), forged.hex(), tag='infinity-key')
-                    yield mk('c14.verify', chain, atext(ver, hc), cps(MAGIC), cps(t), forged.hex(), tag='infinity-key')
+                    yield mk('c14.recoverCompact', d, forged.hex(), tag='infinity-key', ood=True)
+                    yield mk('c14.verify', chain, atext(ver, h160inf), cps(MAGIC), cps(t), forged.hex(), tag='infinity-key', ood=True)
+                    yield mk('c14.verify', chain, atext(ver, hc), cps(MAGIC), cps(t), forged.hex(), tag='infinity-key', ood=True)
             # the digest handed to recover_compact need not be 32 bytes: the code shifts longer ones
             for ln in (0, 1, 31, 33, 34, 64):
                 hv = bytes(rng.randrange(256) for _ in range(ln))
                 for sg in (good_c, good_u):
-                    yield mk('c14.recoverCompact', hv.hex(), sg.hex(), tag='recover-hashlen')
+                    yield mk('c14.recoverCompact', hv.hex(), sg.hex(), tag='recover-hashlen', ood=True)
             # recover_compact on the property's domain: headers 27..34, r, s in [1, n-1]; liftable or not, and
             # r = x - n with n <= x < p so that recovery ids 2 and 3 select a different abscissa
             for hb in range(27, 35):
-                yield mk('c14.recoverCompact', d, (bytes([hb]) + rs).hex(), tag='recover-header')
+                yield mk('c14.recoverCompact', d, (bytes([hb]) + rs).hex(), tag='recover-header',
+                         ood=hb not in (27 + recid, 31 + recid))
             xs = P - N - 1 - rng.randrange(0, 1 << 20)
             for rv, s2 in ((r, N - sv), (r, 1), (1, sv), (N - 1, sv), (r, N - 1), (xs, sv), (P - N - 1, sv),
                            (P - N, sv), (rng.randrange(1, N), rng.randrange(1, N)), (rng.randrange(1, P - N), sv),
                            (1, 1)):
                 for rid in range(4):
                     sg = bytes([27 + rid + 4 * (q & 1)]) + rv.to_bytes(32, 'big') + s2.to_bytes(32, 'big')
-                    yield mk('c14.recoverCompact', d, sg.hex(), tag='recover-range')
+                    yield mk('c14.recoverCompact', d, sg.hex(), tag='recover-range', ood=True)       # not produced by signing
             for ln in (0, 1, 64, 66):
                 yield mk('c14.recoverCompact', d, (good_c + b'\x00')[:ln].hex() if ln < 66 else (good_c + b'\x00').hex(),
-                         tag='recover-length')
+                         tag='recover-length', ood=True)
 
         # (d) header arithmetic, exhaustively
         if shard == 0:
@@ -242,13 +246,18 @@ class C14(Prop):
             if op == 'c14.digest':
                 return guarded(lambda: SM.BitcoinMessage(text(a[1]), text(a[0])).GetHash().hex())
             if op == 'c14.header':
-                # SignMessage's header arithmetic, observed through a stub key with a fixed recid
+                # AUXILIARY: SignMessage's header arithmetic for all four recovery ids, observed through a duck-typed key
+                # with a fixed recid (real keys only ever give recid 0/1; those are judged in c14.msg).  If SignMessage
+                # asks the stub for anything else, the case is unobservable, not a verdict.
                 class Stub:
                     is_compressed = bool(int(a[1]))
 
                     def sign_compact(self, h):
                         return b'\x00' * 64, int(a[0])
-                return guarded(lambda: str(base64.b64decode(SM.SignMessage(Stub(), SM.BitcoinMessage('x')))[0]))
+                try:
+                    return str(base64.b64decode(SM.SignMessage(Stub(), SM.BitcoinMessage('x')))[0])
+                except Exception as e:  # noqa: BLE001
+                    return 'err:harness:StubKeyRejected:' + type(e).__name__
             if op == 'c14.msg':
                 c['aux'] = ['00', '-', '-', '-', '-']
 
